@@ -9,18 +9,24 @@ OUTSIDE = ('more than 4 concurrently arriving new threads in one scenario (the s
            'steps is an argument, not solved); counter wrap after 2^64-1 ids; thread exit / TLS destruction; '
            'weak-memory reorderings (the only shared access is one relaxed fetch_add, whose atomicity is what is used)')
 INSTANCES = [
+    {'name': 't2_anyc0', 'src': 'thread_id.cpp', 'engine': 'cbmc-seq', 'defs': {'VF_T': 2, 'VF_C0_FULL': 1},
+     'tiers': ['thorough'],
+     'repo_sources': ['dispenso/thread_id.cpp'], 'steps': 4, 'unwind': 6, 'nthreads': 3, 'spin_loops': True,
+     'timeout': 1500,
+     'bounds': 'main + 2 new threads, 2-3 calls each; start counter c0 = ANY 64-bit value <= 2^64-5 (fully symbolic); '
+               '<= 4 scheduling rounds'},
     {'name': 't2', 'src': 'thread_id.cpp', 'engine': 'cbmc-seq', 'defs': {'VF_T': 2},
      'repo_sources': ['dispenso/thread_id.cpp'], 'steps': 4, 'unwind': 6, 'nthreads': 3, 'spin_loops': True,
      'timeout': 900,
-     'bounds': 'main + 2 new threads, 2-3 threadId() calls each; start counter c0 any value <= 2^64-5; main holds an '
+     'bounds': 'main + 2 new threads, 2-3 threadId() calls each; start counter c0 from 8 representative values (0, 1, 5, 2^32-2, 2^32-1, 2^63-2, 2^64-256, 2^64-5); main holds an '
                'old id (< c0) or takes a new one concurrently; <= 4 scheduling rounds'},
     {'name': 't3', 'src': 'thread_id.cpp', 'engine': 'cbmc-seq', 'defs': {'VF_T': 3},
      'repo_sources': ['dispenso/thread_id.cpp'], 'steps': 4, 'unwind': 6, 'nthreads': 4, 'spin_loops': True,
      'timeout': 900,
-     'bounds': 'main + 3 new threads, 2-3 calls each; symbolic start counter; <= 4 scheduling rounds',
-     'thorough': {'steps': 6}},
+     'bounds': 'main + 3 new threads, 2-3 calls each; 8 representative start counters; <= 4 scheduling rounds',
+     'thorough': {'steps': 6, 'bounds': 'main + 3 new threads, 2-3 calls each; 8 representative start counters; <= 6 scheduling rounds'}},
     {'name': 't4', 'src': 'thread_id.cpp', 'engine': 'cbmc-seq', 'defs': {'VF_T': 4}, 'tiers': ['thorough'],
      'repo_sources': ['dispenso/thread_id.cpp'], 'steps': 6, 'unwind': 7, 'nthreads': 5, 'spin_loops': True,
      'timeout': 1500,
-     'bounds': 'main + 4 new threads, 2-3 calls each; symbolic start counter; <= 6 scheduling rounds'},
+     'bounds': 'main + 4 new threads, 2-3 calls each; 8 representative start counters; <= 6 scheduling rounds'},
 ]
